@@ -2,7 +2,10 @@
 
       pkg/cantext/encode.go    Marshal [text_multiline], MarshalCompact / MessageString [text_compact],
                                AppendSignal [text_signal], AppendSignalCompact [text_compact_signal],
-                               AppendID / AppendSender / AppendSendType / AppendCycleTime / AppendDelayTime
+                               AppendID / AppendSender / AppendSendType / AppendCycleTime / AppendDelayTime /
+                               AppendFrame with the caller's buffer made explicit [append_to], the text
+                               one call contributes [append_text]; Marshal as the Go loop over a buffer
+                               [marshal_loop]
       pkg/canjson/encode.go    Marshal [json_render], signal.set* [json_signal_value],
                                uintToJSON [uint_to_json] (AFTER fix F7; pre-fix formula [uint_to_json_old]),
                                intToJSON [int_to_json], floatToJSON (a [FloatF] segment)
@@ -26,6 +29,7 @@ From Coq Require Import String.
 From Coq Require Import ZArith List Bool.
 From Flocq Require Import BinarySingleNaN.
 From CanVerif Require Import Base.Dec Base.Hex Can.Data Descriptor.Signal Descriptor.Physical Gen.Message Gen.RenderNum.
+From CanVerif Require Can.Frame Can.FrameString.
 Import ListNotations.
 Open Scope Z_scope.
 
@@ -70,6 +74,7 @@ Definition t_never : bytes := Eval compute in lit "never".
 Definition t_none : bytes := Eval compute in lit "None".
 Definition t_cyclic : bytes := Eval compute in lit "Cyclic".
 Definition t_event : bytes := Eval compute in lit "Event".
+Definition t_frame : bytes := Eval compute in lit "Frame".
 
 (** * Values the renderers read from the payload *)
 
@@ -295,3 +300,63 @@ Definition text_multiline (m : message) (st : state) := text_multiline_data m (s
 Definition json_render (m : message) (st : state) := json_render_data m (state_data m st).
 Definition json_render_old (m : message) (st : state) := json_render_data_old m (state_data m st).
 Definition debug_entry (w : wrapper) (m : message) (st : state) : entry := (w, m, state_data m st).
+
+(** * cantext.Append* with the caller's buffer made explicit
+
+    Every Append* function of pkg/cantext has the shape [func(buf []byte, ...) []byte] and is
+    written with [append] only.  A buffer is a segment list; [append_text c] is what call [c]
+    contributes and [append_to buf c] the buffer it returns.  [None] = the call panics: only
+    AppendFrame can (Frame.String() on a data frame with Length > 8, Can/FrameString.v).
+    That the returned slice shares no memory with buffers handed out by OTHER calls is a fact about Go
+    memory, not expressible here (a rendering is a value); the correspondence run observes it. *)
+Definition can_frame (f : frame) : Can.Frame.frame :=
+  Can.Frame.mkFrame (fr_id f) (fr_length f) (fr_data f) (fr_remote f) (fr_extended f).
+
+Inductive append_call :=
+| CallSignal (s : signal) (d : data)          (* AppendSignal(buf, s, d) *)
+| CallSignalCompact (s : signal) (d : data)   (* AppendSignalCompact(buf, s, d) *)
+| CallID (m : message)                        (* AppendID(buf, m.Descriptor()) *)
+| CallSender (m : message)
+| CallSendType (m : message)
+| CallCycleTime (m : message)
+| CallDelayTime (m : message)
+| CallFrame (f : frame).                      (* AppendFrame(buf, f) *)
+
+Definition append_text (c : append_call) : option (list segment) :=
+  match c with
+  | CallSignal s d => Some (text_signal s d)
+  | CallSignalCompact s d => Some (text_compact_signal s d)
+  | CallID m => Some (append_id m)
+  | CallSender m => Some (append_attr t_sender (Lit (msg_sender m)))
+  | CallSendType m => Some (append_attr t_send_type (Lit (send_type_text (msg_send_type m))))
+  | CallCycleTime m => Some (append_attr t_cycle_time (GoDuration (msg_cycle_time m)))
+  | CallDelayTime m => Some (append_attr t_delay_time (GoDuration (msg_delay_time m)))
+  | CallFrame f =>
+    match Can.FrameString.to_string (can_frame f) with
+    | Can.FrameString.S_ok t => Some (append_attr t_frame (Lit t))
+    | Can.FrameString.S_panic => None
+    end
+  end.
+
+Definition append_to (buf : list segment) (c : append_call) : option (list segment) :=
+  match append_text c with
+  | Some t => Some (buf ++ t)
+  | None => None
+  end.
+
+(** Marshal (encode.go:32-42) as written: [buf = append(buf, name)], then per signal
+    [buf = append(buf, "\n\t"); buf = AppendSignal(buf, s, f.Data)] *)
+Definition marshal_loop (m : message) (d : data) : list segment :=
+  fold_left (fun buf s => match append_to (buf ++ [Lit t_nl_tab]) (CallSignal s d) with
+                          | Some b => b
+                          | None => buf
+                          end)
+            (msg_signals m) [Lit (msg_name m)].
+
+(** MarshalCompact (encode.go:18-30) as written; [i] counts the signals already appended *)
+Definition marshal_compact_loop (m : message) (d : data) : list segment :=
+  snd (fold_left (fun (acc : nat * list segment) s =>
+                    let '(i, buf) := acc in
+                    let buf1 := match append_to buf (CallSignalCompact s d) with Some b => b | None => buf end in
+                    (S i, if Nat.eqb i (length (msg_signals m) - 1) then buf1 else buf1 ++ [Lit t_comma_sp]))
+                 (msg_signals m) (O, [Lit t_lbrace])) ++ [Lit t_rbrace].
